@@ -87,7 +87,7 @@ type MapCase struct {
 func genC04Map(rt *rapid.T, tier string) any {
 	r := rapidRnd{rt}
 	c := &MapCase{}
-	tx := taxa(drawTaxa(rt, 4, 11), "t")
+	tx := drawTaxaNames(rt, drawTaxa(rt, 4, 11))
 	base := RandomTree(tx, r, rapid.IntRange(2, 3).Draw(rt, "maxdeg"), true)
 	for i := rapid.IntRange(2, 4).Draw(rt, "ntrees"); i > 0; i-- {
 		m := related(base, r, 2, 0)
